@@ -37,6 +37,9 @@ class Explorer:
         self.feas_timeout_ms = feas_timeout_ms
         self.paths_done = 0
         self.truncated = False
+        import os
+        d = os.environ.get("SYMX_DEADLINE")
+        self.deadline = float(d) if d else None
         self.depth_hits = 0
         self.solver = None
         self.trace = None
@@ -110,7 +113,7 @@ class Explorer:
         path (after the context was reset) and must (re)create the symbolic inputs; it returns the argument of body."""
         self.todo = [[]]
         while self.todo:
-            if self.paths_done >= self.max_paths:
+            if self.paths_done >= self.max_paths or (self.deadline is not None and time.time() > self.deadline):
                 self.truncated = True
                 break
             self.prefix = self.todo.pop()
